@@ -180,7 +180,11 @@ static int cmd_work(int argc, char **argv) {
 		st.runs++;
 		st.evals += g_sim.counters.count("evals") ? g_sim.counters["evals"] : 1;
 		st.ops += r.ops;
-		for (auto &c : g_sim.counters) if (c.first != "evals") st.counters[c.first] += c.second;
+		for (auto &c : g_sim.counters) {
+			if (c.first == "evals") continue;
+			if (c.first.compare(0, 4, "max.") == 0) { if (c.second > st.counters[c.first]) st.counters[c.first] = c.second; }
+			else st.counters[c.first] += c.second;
+		}
 		if (r.nontrivial && st.hashes.insert(r.trace).second) {
 			st.nontrivial++;
 			st.pending_hashes.push_back(r.trace);
